@@ -1555,6 +1555,11 @@ def plan(tier, seed, args):
     nh = args.cases if args.cases is not None else (240 if tier == "quick" else 12000)
     for i in range(nh):
         cases.append({"kind": "history", "seed": derive(seed, PROP, "hist", i) % (10**9), "restart": (i % (6 if tier == "quick" else 10) == 0), "real_fs": (i % 4 == 3)})
+    # concurrent clients: two or three threads of the process save / load their own files, the
+    # seeded scheduler interleaves them at every operation on the simulated tree
+    nc = (args.cases // 2) if args.cases is not None else (120 if tier == "quick" else 6000)
+    for i in range(nc):
+        cases.append({"kind": "concurrent", "seed": derive(seed, PROP, "conc", i) % (10**9)})
     # cheap cases last would starve the long ones; interleave deterministically
     rng.shuffle(cases)
     cases.sort(key=lambda c: 0 if (c["kind"] == "enum" and c["desc"]["obj"] == "model") else 1)
@@ -1575,6 +1580,10 @@ def run_case(spec):
         return run_restart(spec)
     if k == "analyzer":
         return run_analyzer(spec)
+    if k == "concurrent":
+        from cidersim.engines import fsim_conc
+
+        return fsim_conc.run(spec)
     raise ValueError(k)
 
 
@@ -1601,6 +1610,8 @@ def on_crash(spec, status):
 def minimise(v):
     """delta-debug history op lists; other case kinds are already minimal (one object)."""
     case = v["replay"].get("case", {})
+    if case.get("kind") == "concurrent":
+        return minimise_concurrent(v)
     if case.get("kind") == "history" and "hist" not in case and "seed" in case:
         case = dict(case, hist=gen_history(case["seed"]))
         v = dict(v, replay=dict(v["replay"], case=case))
@@ -1631,6 +1642,50 @@ def minimise(v):
     rp = dict(v["replay"])
     rp["case"] = dict(case, hist=dict(hist, ops=ops))
     rp["minimised_from_ops"] = len(hist["ops"])
+    v["replay"] = rp
+    return v
+
+
+def minimise_concurrent(v):
+    """drop operations of clients (and whole clients) while the same violation key persists;
+    the schedule is re-drawn from the recorded scheduler seed for every candidate"""
+    from cidersim.driver import run_pool
+    from cidersim.engines import fsim_conc
+
+    case = v["replay"]["case"]
+    hist = case.get("hist") or fsim_conc.gen(case["seed"])
+    key = v["key"]
+
+    def fails(h):
+        r = run_pool([{"kind": "concurrent", "hist": h}], run_case, nproc=1, case_timeout=600)[0]
+        return bool(r) and any(x["key"] == key for x in r.get("violations", []))
+
+    cl = [list(c) for c in hist["clients"]]
+    n0 = sum(len(c) for c in cl)
+    changed = True
+    tries = 0
+    while changed and tries < 60:
+        changed = False
+        for t in range(len(cl)):
+            for i in range(len(cl[t])):
+                cand = [list(c) for c in cl]
+                del cand[t][i]
+                tries += 1
+                # (several scheduler seeds: removing an operation shifts every later draw)
+                for ss in (hist["sseed"], hist["sseed"] + 1, hist["sseed"] + 2):
+                    if fails(dict(hist, clients=cand, sseed=ss)):
+                        cl = cand
+                        hist = dict(hist, sseed=ss)
+                        changed = True
+                        break
+                if changed:
+                    break
+            if changed:
+                break
+    v = dict(v)
+    rp = dict(v["replay"])
+    rp["case"] = {"kind": "concurrent", "hist": dict(hist, clients=cl)}
+    rp["minimised_from_ops"] = n0
     v["replay"] = rp
     return v
 
@@ -1682,11 +1737,15 @@ def coverage(done, tier):
             # 0 on a tree whose loaders read no environment variable (nothing to redirect)
             "loads_with_environment_variables_redirected": tot.get("loads_under_changed_environment", 0),
             "two_process_restarts_with_busy_reader": tot.get("two_process_restarts", 0),
+            "interleaved_client_threads_cases": tot.get("conc_cases_interleaved", 0),
+            "interleaved_client_switches": tot.get("conc_switches", 0),
+            "client_dumps_failed_by_injection_while_others_run": tot.get("conc_dumps_failed_by_injection", 0),
         },
         "simulated_steps": {
             "raw_write_calls": tot.get("fs_raw_write_calls", 0),
             "raw_read_calls": tot.get("fs_raw_read_calls", 0),
             "opens": tot.get("fs_opens", 0),
+            "preemption_points_of_concurrent_clients": tot.get("conc_preemption_points", 0),
         },
         "counters": dict(tot),
         "fault_free_roundtrips": tot.get("roundtrips", 0) + tot.get("cycles", 0) + tot.get("dict_roundtrips", 0),
